@@ -65,7 +65,8 @@ MANIFEST = {
 }
 
 RULE = (
-    "(tree token sequence) x (fanout assignment: <= 2 leaves, values {2,3}); distinct = distinct pair; "
+    "(tree token sequence) x (fanout assignment: <= 2 leaves, values {2,3}); distinct = distinct concrete tree "
+    "with its fanouts (hashed); "
     "non-trivial = at least one compared component has more than one instance (so a multiplier must be applied)"
 )
 ASSUMPTIONS = [
